@@ -10,6 +10,9 @@ def key(r):
         return "C01:slow-request-body:%s" % req.get("body")
     if "HTTP/1.0 client" in why:
         return "C02:chunked-to-http10-client:%s" % up.get("fr")
+    if r.get("route") == "handler" and req.get("crlf") and "connection reset by peer" in why:
+        # the http.Handler variant: net/http's server closes a socket that still holds the empty line
+        return "C02:handler-variant:reset-after-trailing-crlf"
     if "not parsable" in why or "stray" in why or "body differs" in why:
         if ex.get("undone") and up.get("fr") != "chunked":
             return "C02:decompressed-unknown-length-no-framing"
